@@ -165,9 +165,44 @@ def run_item(item):
                     return bad('file-target:' + info.kind, 'file link target is not template(absolute path of the section file, displayed line)',
                                exps, uri)
                 counters['file_links'] += 1
+    elif case['kind'].startswith('grep'):
+        model = case['model']
+        allowed = {}
+        for pth, hits in model:
+            allowed[norm(os.path.join(cwd, pth))] = {str(h[0]) for h in hits} | {''}
+        for rw in rws:
+            for uri, text in rw.links:
+                counters['links'] += 1
+                ok = False
+                shows_number = re.search(r':(\d+)', text) is not None
+                for ap, lines_ok0 in allowed.items():
+                    # a group header shows no number; its link is made with line 0 (nothing is displayed beside it)
+                    lines_ok = lines_ok0 if shows_number else (lines_ok0 | {'0'})
+                    for ln in lines_ok:
+                        u = file_fmt.replace('{path}', ap).replace('{line}', ln)
+                        if '{host}' in u:
+                            import socket
+                            u = u.replace('{host}', socket.gethostname())
+                        if u == uri:
+                            ok = True
+                            # the line in the link must be the one displayed in the linked text, if one is displayed
+                            m = re.search(r':(\d+)', text)
+                            if m and ln not in ('', m.group(1)) and '{line}' in file_fmt:
+                                return bad('grep-link-line', 'grep hit link carries line %s but shows %s' % (ln, m.group(1)), m.group(1), ln)
+                if not ok:
+                    return bad('grep-link-target', 'link in grep output does not point at a file of the result with one of its line numbers',
+                               sorted(allowed)[:3], uri)
+                counters['file_links'] += 1
     else:
         for rw in rws:
-            counters['links'] += len(rw.links)
+            for uri, text in rw.links:
+                counters['links'] += 1
+                t = text.strip()
+                if re.fullmatch(r'\^?[0-9a-f]{7,40}', t):
+                    exp = commit_fmt.replace('{commit}', t)
+                    if uri != exp:
+                        return bad('commit-target', 'commit link in blame output does not match the wrapped hash', exp, uri)
+                    counters['commit_links'] += 1
     sig = (case['kind'], case['view'], tuple(sorted(case['meta']['classes'])), file_fmt, commit_fmt, mode)
     o = held(sig=sig, nontrivial=counters['links'] > 0, counters=counters, sets=sets,
              sample={'kind': case['kind'], 'view': case['view'], 'file_fmt': file_fmt, 'links': counters['links'],
